@@ -149,9 +149,33 @@ class World:
         bt, rows, sym = op["bt"], op["rows"], op["symmetric"]
         n = gen.n_bins(bt)
         extra = {"weight": np.arange(n, dtype=float) + op["tag"]} if op["with_weight"] else None
-        call(f"create_cooler(mode={mode!r}) at {path}", cooler.create_cooler, self.uri(fi, path, op["slash"]),
-             gen.bins_df(bt, extra=extra), pixel_frame(rows), ordered=True, symmetric_upper=sym,
-             mode=mode if exists else "w", h5opts={"compression": None})
+        if op.get("via") == "cli-load":
+            # the same creation through `cooler load` (write mode unless --append is given)
+            from ..cliutil import run_cli
+            from . import c05
+
+            d = self.ctx.tmpdir()
+            try:
+                bins_arg = c05._write_bins(d, bt, "bed")
+                txt = os.path.join(d, "px.txt")
+                with open(txt, "w") as f:
+                    for r in rows:
+                        f.write(f"{r[0]}\t{r[1]}\t{r[2]}\n")
+                args = ["load", "-f", "coo", bins_arg, txt, self.uri(fi, path, op["slash"])]
+                if not sym:
+                    args.append("-N")
+                if mode == "a" and exists:
+                    args.append("--append")
+                rc, _, exc = run_cli(args)
+                check(rc == 0 and exc is None, f"cooler {' '.join(str(a) for a in args[:3])} ... {args[5:]} failed: exit {rc} {exc!r}")
+            finally:
+                self.ctx.clean(d)
+            extra = None
+            op = dict(op, with_weight=False)
+        else:
+            call(f"create_cooler(mode={mode!r}) at {path}", cooler.create_cooler, self.uri(fi, path, op["slash"]),
+                 gen.bins_df(bt, extra=extra), pixel_frame(rows), ordered=True, symmetric_upper=sym,
+                 mode=mode if exists else "w", h5opts={"compression": None})
         content = {"bt": bt, "rows": rows, "symmetric": sym, "weight": op["tag"] if op["with_weight"] else None}
         if mode == "w" or not exists:
             self.entries[fi] = {}
@@ -385,12 +409,15 @@ def make_machine(ctx: Ctx):
             w.close()
 
         @rule(c=_content(), file=st.integers(0, 1), path=st.integers(0, 6), mode=st.sampled_from(["a"] * 11 + ["w"]),
-              with_weight=st.booleans(), slash=st.booleans(), add_unrelated=st.booleans())
-        def create(self, c, file, path, mode, with_weight, slash, add_unrelated):
+              with_weight=st.booleans(), slash=st.booleans(), add_unrelated=st.booleans(),
+              via=st.sampled_from(["api", "api", "api", "cli-load"]), wmode=st.sampled_from(["a", "w", "w"]))
+        def create(self, c, file, path, mode, with_weight, slash, add_unrelated, via, wmode):
             bt, sym, rows = c
             self.tag += 1
+            if via == "cli-load":
+                mode = wmode        # the command line's default is write mode: drawn far more often than through the API
             self.w.apply({"op": "create", "bt": bt, "rows": rows, "symmetric": sym, "file": file, "path": path, "mode": mode,
-                          "with_weight": with_weight, "tag": self.tag, "slash": slash, "add_unrelated": add_unrelated})
+                          "with_weight": with_weight, "tag": self.tag, "slash": slash, "add_unrelated": add_unrelated, "via": via})
 
         @rule(src_file=st.integers(0, 1), src=st.integers(0, 9), dst_file=st.integers(0, 1), dst=st.integers(0, 9), slash=st.booleans(), cli=st.booleans())
         def cp(self, src_file, src, dst_file, dst, slash, cli):
